@@ -17,7 +17,7 @@ var isPageMapCall = nameIs("(*ls.WALReader).pageMap")
 func headerLiteral(fn *ssa.Function) (ssa.CallInstruction, map[string]ssa.Value) {
 	for _, f := range withClosures(fn) {
 		for _, call := range callsTo(f, nameIs("(*ltx.Encoder).EncodeHeader")) {
-			return call, compositeFields(call.Common().Args[1])
+			return call, compositeFields(refArgs(call)[1])
 		}
 	}
 	return nil, nil
@@ -189,7 +189,7 @@ func ltxHeaderRules(c *Ctx) {
 	}
 	// staged file name and final name use the same TXID at level 0
 	for _, lp := range callsTo(fn, nameIs("(*ls.DB).LTXPath")) {
-		a := lp.Common().Args
+		a := refArgs(lp)
 		ok := len(a) == 4 && vConstInt(0)(a[1]) && txID(a[2]) && txID(a[3])
 		c.check(ok, rule, name+": file name = LTXPath(0, txID, txID)", c.pos(lp), "level 0, same TXID", "the L0 file is not named after the allocated TXID")
 	}
@@ -330,7 +330,7 @@ func pageCopyParts(c *Ctx, rule string, lockOnly bool, fname string, root *ssa.F
 				use := false
 				switch calleeName(call) {
 				case "(*ltx.Encoder).EncodePage":
-					if v, ok := compositeFields(call.Common().Args[1])["Pgno"]; ok && pg(v) {
+					if v, ok := compositeFields(refArgs(call)[1])["Pgno"]; ok && pg(v) {
 						use = true
 					}
 				case "builtin:append":
@@ -411,7 +411,7 @@ func pageCopyParts(c *Ctx, rule string, lockOnly bool, fname string, root *ssa.F
 				continue
 			}
 			// page header and buffer
-			if v, ok := compositeFields(e.Common().Args[1])["Pgno"]; ok {
+			if v, ok := compositeFields(refArgs(e)[1])["Pgno"]; ok {
 				_ = v
 			} else {
 				c.fail("L-page-copy", name+": EncodePage header has Pgno", c.pos(e), "missing Pgno")
@@ -453,7 +453,7 @@ func pageCopyParts(c *Ctx, rule string, lockOnly bool, fname string, root *ssa.F
 		// page sources: WAL frame payload at pageMap[pgno]+24, database file at (pgno-1)*pageSize
 		nWal, nDB := 0, 0
 		for _, rd := range callsTo(fn, nameIs("(*os.File).ReadAt")) {
-			a := rd.Common().Args
+			a := refArgs(rd)
 			switch {
 			case vParam("walFile")(a[0]):
 				nWal++
@@ -487,10 +487,10 @@ func pageCopyParts(c *Ctx, rule string, lockOnly bool, fname string, root *ssa.F
 		c.floor("L-page-copy", nWal, 1, "WAL page reads in "+name)
 		c.floor("L-page-copy", nDB, 1, "database page reads in "+name)
 		for _, e := range encs {
-			buf := e.Common().Args[2]
+			buf := refArgs(e)[2]
 			okBuf := false
 			for _, rd := range callsTo(fn, nameIs("(*os.File).ReadAt")) {
-				if sameValue(rd.Common().Args[1], buf) {
+				if sameValue(refArgs(rd)[1], buf) {
 					okBuf = true
 				}
 			}
